@@ -106,7 +106,7 @@ pub fn perturb_raw(root: &Node, doc: &[u8], p: &[PathElem]) -> Vec<Vec<PathElem>
 pub fn gen_confusable_keys(src: &mut Src) -> Vec<u8> {
     const NAMES: &[&str] = &[
         "k\\\"x", "k\\\\", "k", "k\\n", "k\\\\n", "a\\u0062", "ab", "a\\\\u0062", "q\\\"", "q", "\\\\", "\\\"", "", "\\u005c", "\\/", "/",
-        "com.example.service.alpha.timeout", "com.example.service.gamma.timeout", "com.example.service.delta.timeout", "com.example.service.alpha.timeou", "com.example.servicE.alpha.timeout",
+        "0", "1", "42", "007", "+5", "-1", "1e2", "18446744073709551616", "com.example.service.alpha.timeout", "com.example.service.gamma.timeout", "com.example.service.delta.timeout", "com.example.service.alpha.timeou", "com.example.servicE.alpha.timeout",
         "aaaaaaaaaaaaaaaaaaaaaaaaaaaaaaaXaaaaaaaa", "aaaaaaaaaaaaaaaaaaaaaaaaaaaaaaaYaaaaaaaa",
     ];
     let n = 2 + src.below(7);
